@@ -117,6 +117,18 @@ CLAIMED["C19"] = (
     "is named, not proved.",
     "Lean 4 proof over translator-regenerated model (Mathlib reals) + Float correspondence", "DESIGN.md §3, §6 C19")
 
+CLAIMED["C06"] = (
+    "Lean 4 theorems: a batch answer is the map of the element answer (element i of the batch = the answer to element i alone, length "
+    "preserved, permutation/reversal/concatenation/splitting of the batch permutes/reverses/concatenates/splits the result, empty batch -> "
+    "empty answer); numerical_inverse's array path (reshape, transpose to rows, solve each row, transpose back) puts component j of row i's "
+    "own solution at (j, i) whatever the other rows contain; broadcasting facts; the selector's group-by-label scatter equals the pointwise "
+    "map (shared with C15); the analytic models are per-element by construction of the translated definitions (C19). Tied to gwcs by a "
+    "metamorphic comparison on the real code: array answer vs element-by-element vs permuted batch vs partitioned batch for every entry "
+    "point, shape and mode, and the Lean layout vs the real output layout.",
+    "Trusted: Lean kernel; standard axioms; harness. Iterative inverse compared to solver tolerance. Known finding D24 (separable transforms "
+    "return un-broadcast output shapes for broadcastable inputs).",
+    "Lean 4 proof of batching skeletons + metamorphic differential oracle", "DESIGN.md §6 C06")
+
 NOT_YET = "check not built yet in this round; will be claimed once its Lean model, theorems and correspondence run green"
 
 
